@@ -163,3 +163,15 @@ pub enum ErrRecover {
     #[regex("é+!")] EBang,
     #[token("z")] Z,
 }
+
+// a loop over one range anchored at 0x00 (count_ops = 1 although the range is wide), a longer token extending a
+// higher-priority shorter one by one byte, and an end-anchored pattern with a value callback-free item
+#[derive(Logos, Debug, PartialEq, Clone)]
+pub enum EdgeShapes {
+    #[regex("[\\x00-\\x20]+")] Ctl,
+    #[token("=", priority = 10)] Eq,
+    #[token("==")] EqEq,
+    #[token("if")] If,
+    #[regex("[a-z]*!")] Macro,
+    #[regex("[a-z]+")] Word,
+}
